@@ -27,9 +27,10 @@ RULE += ' ' + 'In a third of the multi-object Averager runs and of the multi-pro
 RULE += ' ' + 'In 30 % of the multi-process throttle runs one calling process is killed at a seeded point after decorating; the survivors must make all their calls.'
 RULE += ' ' + "In 40 % of the multi-process throttle runs the processes' functions carry different module names under the one name= argument."
 RULE += ' ' + 'A fifth of the throttle runs use JSONDisk.'
+RULE += ' ' + 'In one throttle run in seven the clock is set back after every second call (the bound is taken in true elapsed time).'
 ASSUMPTIONS = ['throttle is given time_func/sleep_func bound to the virtual clock (the seam the recipe offers); a virtual sleep lasts at least the requested time plus >= 1 microsecond',
                'Averager values are dyadic rationals so sums are exact in any order']
-PROBES = ('throttle_delayed', 'throttle_calls', 'throttle_raising_calls', 'throttle_across_processes', 'throttle_after_restart', 'avg_pops', 'lock_wait', 'handed_over_by_pickle', 'caller_killed', 'same_name_other_module', 'json_disk')
+PROBES = ('throttle_delayed', 'throttle_calls', 'throttle_raising_calls', 'throttle_across_processes', 'throttle_after_restart', 'avg_pops', 'lock_wait', 'handed_over_by_pickle', 'caller_killed', 'same_name_other_module', 'json_disk', 'clock_set_back')
 TECHNIQUE = 'deterministic simulation: seeded schedules + linearizability against (total,count); virtual-clock arrival patterns with a window-bound oracle over recorded start times'
 LEVEL_TEXT = ('seeded exploration of adder/popper interleavings decided by a linearizability search, and of arrival patterns x rates on '
               'a virtual clock decided by the exact window bound over all pairs of recorded start times plus completion of every call.')
@@ -94,6 +95,8 @@ def gen_case(seed, tier):
     # a restart: after the first callers are done, a new process on the same directory whose clock reads much LOWER (a
     # monotonic clock after a reboot, a device without a battery-backed clock) decorates the function again and calls it
     cfg['reboot'] = rng.random() < 0.15
+    if rng.random() < 0.15 and not cfg['reboot']:
+        cfg['clock_slips'] = rng.choice((0.01, 0.01, 0.3))
     if cfg['procs'] and ncallers >= 2 and rng.random() < 0.3:
         # one of the calling processes dies (kill -9, out of memory) somewhere inside its calls - possibly in the middle of an
         # admission: the others are still let through, at the same rate
@@ -211,9 +214,11 @@ def run_throttle(case):
         # oracle uses the reading that admitted each call (the last time_func value seen by the calling task).
         last_read = {}
 
+        slipped = [0.0]      # how far the wall clock has been set back so far: true time = clock reading + slipped
+
         def time_func():
             t = seams.SIM_TIME.time()
-            last_read[sim.current.name if sim.current else None] = t
+            last_read[sim.current.name if sim.current else None] = t + slipped[0]
             return t
 
         def throttled(c):
@@ -276,6 +281,11 @@ def run_throttle(case):
                                                'detail': 'throttled call returned %r (raising call: %s)' % (got, boom)})
                     except WorkError:
                         probes['throttle_raising_calls'] = probes.get('throttle_raising_calls', 0) + 1
+                    if cfg.get('clock_slips') and j % 2 == 1:
+                        # the wall clock is set back a little (NTP step, VM migration): the limit is about real elapsed time
+                        sim.advance(-cfg['clock_slips'])
+                        slipped[0] += cfg['clock_slips']
+                        probes['clock_set_back'] = probes.get('clock_set_back', 0) + 1
                 done1.append(i)
                 return True
             return fn
